@@ -101,4 +101,13 @@ def build(tier, seed):
         kern.bounds = ['<= 3 headers, <= 1 inline contents, <= 3 registered items']
         return kern
     ks.append(kernel_or_error('wrapper_file', wfile))
+    # registrations made inside modules must reach the top-level result (CodegenResult::inner; kernel shared with C01)
+    try:
+        from props import c01
+        for kk in c01.build(tier, seed):
+            if kk.name == 'module_helpers':
+                kk.name = 'registrations_survive_modules'
+                ks.append(kk)
+    except Exception as e:
+        ks.append(Kernel(name='registrations_survive_modules', error='build-failed: %s' % e))
     return ks
